@@ -13,6 +13,8 @@ pub enum Op {
     ReplaceChildAt(usize, usize, Style, Option<Ctx>),
     /// rotate the children of a node (set_children with a permutation)
     Rotate(usize),
+    /// set_children with one current child left out (the dropped child becomes a root)
+    DropChild(usize, usize),
     /// move a node under another parent with set_children-style reparenting (remove_child + add_child)
     Reparent(usize, usize),
     Remove(usize),
@@ -113,6 +115,15 @@ impl World {
                 }
                 _ => false,
             },
+            Op::DropChild(p, idx) => match get(self, *p) {
+                Some(p) if self.t.child_count(p) > 0 => {
+                    let mut ch = self.t.children(p).unwrap();
+                    let k = idx % ch.len();
+                    ch.remove(k);
+                    self.t.set_children(p, &ch).is_ok()
+                }
+                _ => false,
+            },
             Op::Reparent(n, p) => match (get(self, *n), get(self, *p)) {
                 (Some(n), Some(p)) if !self.is_ancestor_or_self(n, p) => {
                     if let Some(old) = self.t.parent(n) {
@@ -191,7 +202,8 @@ pub fn gen_op(rng: &mut Rng, cfg: &GenCfg, w: &World) -> Op {
         return Op::Rounding(true);
     }
     let pick = |rng: &mut Rng| live[rng.below(live.len() as u64) as usize];
-    match rng.below(20) {
+    match rng.below(21) {
+        20 => Op::DropChild(pick(rng), rng.below(5) as usize),
         0..=3 => Op::SetStyle(pick(rng), style(rng, cfg, false, false)),
         4 => Op::AddLeaf(pick(rng), style(rng, cfg, false, true), ctx(rng, cfg)),
         5 => Op::InsertLeaf(pick(rng), rng.below(5) as usize, style(rng, cfg, false, true), ctx(rng, cfg)),
